@@ -111,6 +111,10 @@ def enumerate_faults(feat, text, lm, rng):
             # only rows that are followed by / part of a table with a heading: insert AFTER this row
             if ncell != 5:
                 yield ("cat:table-wrong-cell-count", k + 2, insert(k + 2, u"      | a | b | c | d | e |"), k + 2)
+                # ... also after a comment / blank line inside the table (both are legal there)
+                gap = rng.choice([[u"      # a comment inside the table"], [u""], [u"  # c", u""]])
+                ftext = join(lines[:k + 1] + gap + [u"      | a | b | c | d | e |"] + lines[k + 1:])
+                yield ("cat:table-wrong-cell-count-after-gap", k + 2 + len(gap), ftext, k + 2 + len(gap))
     # malformed tag token
     for hid in header_ids:
         at = lm[hid]
